@@ -1,6 +1,7 @@
 package stx
 
 import (
+	"sync/atomic"
 	"time"
 	"bytes"
 	"context"
@@ -50,6 +51,7 @@ type pendingOp struct {
 	hasTick  bool
 	failErr  error
 	ioFailed bool // the device refused a write during this upload's copy
+	closed     atomic.Int32 // how often the store closed the upload's source
 	sawVisible string // a read or existence check that only this (then unfinished) upload can have made succeed
 	// what had happened when the upload started
 	corruptionsAtStart int
@@ -81,7 +83,7 @@ func (g *gatedChunkReader) Read() ([]byte, error) {
 	return c, nil
 }
 
-func (g *gatedChunkReader) Close() {}
+func (g *gatedChunkReader) Close() { g.op.closed.Add(1) }
 
 // gatedReader is the io.Reader form of the same source (uploads arriving through ByteStream.Write are
 // reader-backed buffers, which reach the block writers through io.Copy instead of one Write per chunk).
@@ -107,7 +109,7 @@ func (g *gatedReader) Read(p []byte) (int, error) {
 	return n, nil
 }
 
-func (g *gatedReader) Close() error { return nil }
+func (g *gatedReader) Close() error { g.g.op.closed.Add(1); return nil }
 
 // gatedSlicer parks before touching the parent, then slices it as the case designates.
 type gatedSlicer struct {
@@ -270,6 +272,11 @@ func (r *Runner) launchPut(id, obj, ver int, chunking, fault string) (*pendingOp
 	r.pending[id] = op
 	r.ioFired = false
 	go func() {
+		defer func() {
+			if p := recover(); p != nil {
+				r.ev <- event{op: id, done: true, reply: fmt.Sprintf("panic: %v", p)}
+			}
+		}()
 		ctx := context.Background()
 		if fault == "cancel" {
 			// the caller has gone away already: the upload may fail or go through, but it must release what it took
